@@ -8,6 +8,7 @@
 import Props.Tables
 import Spec.Semantics
 import Jmes.Interp
+import Proofs.Printer
 namespace Jmes.Props
 open Jmes Jmes.Interp Jmes.Spec
 
@@ -21,7 +22,7 @@ mutual
 /-- The AST of a core expression. -/
 def toNode : Core N → Node N
   | .field k => .field k
-  | .index i => .index i
+  | .index i => .indexExpr .identity (.index i)
   | .sub a b => .sub (toNode a) (toNode b)
   | .idx a i => .indexExpr (toNode a) (.index i)
   | .literal v => .literal v
@@ -136,5 +137,111 @@ example : den (N := Int) (.sub (.field [0x73]) (.field [])) (.obj [([0x73], .str
   simp [den, fieldOf, Val.lookup]
 example : den (N := Int) (.pipe (.field [0x6D]) (.literal (.num 1))) (.obj []) = .num 1 := by
   simp [den]
+
+/-! ### End to end: from the written expression to the specified value
+
+`Spec.PE` is the concrete syntax (Spec/Printer.lean); its core part maps to
+`Core` by `coreOf`.  For every core expression written by the printer — with
+any explicit parentheses — the parser of /repo (regenerated table) yields the
+AST whose evaluation is the specification's value. -/
+
+open Jmes.Spec Jmes.Parser
+
+mutual
+/-- the core part of the concrete syntax -/
+def isCore : PE N → Bool
+  | .ident _ | .quoted _ | .raw _ | .lit _ _ | .current | .idx0 _ _ => true
+  | .idx l _ _ => isCore l
+  | .sub l r => isCore l && isCore r
+  | .bin .pipe l r => isCore l && isCore r
+  | .list x xs => isCore x && isCoreList xs
+  | .hash _ _ v kvs => isCore v && isCoreKVs kvs
+  | .paren e => isCore e
+  | _ => false
+def isCoreList : List (PE N) → Bool
+  | [] => true
+  | x :: xs => isCore x && isCoreList xs
+def isCoreKVs : List (Bool × Bytes × PE N) → Bool
+  | [] => true
+  | (_, _, v) :: rest => isCore v && isCoreKVs rest
+end
+
+mutual
+def coreOf : PE N → Core N
+  | .ident n => .field n
+  | .quoted n => .field n
+  | .raw s => .literal (.str s)
+  | .lit _ v => .literal v
+  | .current => .current
+  | .idx0 _ i => .index i
+  | .idx l _ i => .idx (coreOf l) i
+  | .sub l r => .sub (coreOf l) (coreOf r)
+  | .bin _ l r => .pipe (coreOf l) (coreOf r)
+  | .list x xs => .list (coreOf x :: coreOfList xs)
+  | .hash _ k v kvs => .hash ((k, coreOf v) :: coreOfKVs kvs)
+  | .paren e => coreOf e
+  | _ => .current
+def coreOfList : List (PE N) → List (Core N)
+  | [] => []
+  | x :: xs => coreOf x :: coreOfList xs
+def coreOfKVs : List (Bool × Bytes × PE N) → List (Bytes × Core N)
+  | [] => []
+  | (_, k, v) :: rest => (k, coreOf v) :: coreOfKVs rest
+end
+
+section
+omit [NumOps N]
+mutual
+theorem node_coreOf : (e : PE N) → isCore e = true → node e = toNode (coreOf e)
+  | .ident _, _ | .quoted _, _ | .raw _, _ | .lit _ _, _ | .current, _ | .idx0 _ _, _ => by simp [node, coreOf, toNode]
+  | .idx l _ _, h => by
+    simp only [isCore] at h
+    simp [node, coreOf, toNode, node_coreOf l h]
+  | .sub l r, h => by
+    simp only [isCore, Bool.and_eq_true] at h
+    simp [node, coreOf, toNode, node_coreOf l h.1, node_coreOf r h.2]
+  | .bin op l r, h => by
+    cases op with
+    | pipe =>
+      simp only [isCore, Bool.and_eq_true] at h
+      simp [node, coreOf, toNode, BinOp.node, node_coreOf l h.1, node_coreOf r h.2]
+    | or => simp [isCore] at h
+    | and => simp [isCore] at h
+    | cmp c => simp [isCore] at h
+  | .list x xs, h => by
+    simp only [isCore, Bool.and_eq_true] at h
+    simp [node, coreOf, toNode, toNodes, node_coreOf x h.1, nodeList_coreOf xs h.2]
+  | .hash _ k v kvs, h => by
+    simp only [isCore, Bool.and_eq_true] at h
+    simp [node, coreOf, toNode, toNodeKVs, node_coreOf v h.1, nodeKVs_coreOf kvs h.2]
+  | .paren e, h => by
+    simp only [isCore] at h
+    simp [node, coreOf, node_coreOf e h]
+  | .not _, h | .call _ _, h | .star0 _, h | .dstar _ _, h | .bstar0 _, h | .bstar _ _, h | .flat0 _, h | .flat _ _, h
+  | .slice0 _ _, h | .slice _ _ _, h | .filt0 _ _, h | .filt _ _ _, h => by simp [isCore] at h
+theorem nodeList_coreOf : (xs : List (PE N)) → isCoreList xs = true → nodeList xs = toNodes (coreOfList xs)
+  | [], _ => rfl
+  | x :: xs, h => by
+    simp only [isCoreList, Bool.and_eq_true] at h
+    simp [nodeList, coreOfList, toNodes, node_coreOf x h.1, nodeList_coreOf xs h.2]
+theorem nodeKVs_coreOf : (kvs : List (Bool × Bytes × PE N)) → isCoreKVs kvs = true → nodeKVs kvs = toNodeKVs (coreOfKVs kvs)
+  | [], _ => rfl
+  | (_, k, v) :: rest, h => by
+    simp only [isCoreKVs, Bool.and_eq_true] at h
+    simp [nodeKVs, coreOfKVs, toNodeKVs, node_coreOf v h.1, nodeKVs_coreOf rest h.2]
+end
+end
+
+/-- **End to end.**  A core expression written by the printer (minimal
+    parentheses plus any explicit ones) is parsed by /repo's parser into an AST
+    that evaluates, on every document and without error, to the value the
+    specification assigns to it. -/
+theorem C01_printed_core_evaluates_to_den (ft : List FnEntry) (e : PE N) (hc : isCore e = true) (hw : Parser.wf e) (d : Val N) :
+    (parseTokens Generated.table (ppE e ++ [eofTok 0]) >>= fun ast => eval ft ast d) = .ok (den (coreOf e) d) := by
+  rw [parseTokens_congr (sameDecisions_of_tableOK Generated.table Spec.table generated_table_ok spec_table_ok),
+    round_trip_spec e hw]
+  show eval ft (node e) d = _
+  rw [node_coreOf e hc]
+  exact C01_core_conformance ft _ d
 
 end Jmes.Props
